@@ -458,6 +458,12 @@ func (fc *FnCtx) subRef(st types.Type, i int, ref string) string {
 				fc.localSubs = map[string][]string{}
 			}
 			fc.localSubs[ref] = append(fc.localSubs[ref], term)
+			// a field inside one of this function's allocations is not the address of another of its allocations
+			for _, o := range fc.allocs {
+				if o != ref {
+					fc.assertGlobal(fmt.Sprintf("(not (= %s %s))", term, o))
+				}
+			}
 		}
 	}
 	return term
